@@ -971,9 +971,9 @@ package lang
 //@ ghost $sawEnd bool
 //@ func Parser.printStatement [C01,C13]
 //@   requires parserOK(p)
-//@   updates $sawEnd
+//@   updates nothing
 //@   init $sawEnd = false
-//@   after Parser.atStatementEnd: $sawEnd = ret0
+//@   after Parser.atStatementEnd: $sawEnd = $sawEnd || ret0
 //@   after Parser.expression: $sawEnd = false
 //@   after Parser.consume: $sawEnd = false
 //@   ensures[C13] consumed-terminator-is-recorded: err == nil && $sawEnd ==> p.didEndStatement
